@@ -1,11 +1,11 @@
 SPECIFICATION Spec
 CONSTANTS
-  Kind = "FPCal"
+  Kind = "EMG"
   NI = 2
   MaxItems = 3
   MaxChan = 3
   Labels = {1}
-  Chans = {0, 2, 1}
+  Chans = {0, 1, 2}
   AutoRule = "max"
 INVARIANT InvConforms
 INVARIANT InvAligned
